@@ -94,6 +94,8 @@ TraceNext == TInvStart \/ TLog \/ TApi \/ TApiEmpty \/ TFnEnter \/ TDeliver \/ T
 TraceSpec == TraceInit /\ [][TraceNext]_tvars
 
 Progress == TLCSet(tid, IF TLCGet(tid) < l THEN l ELSE TLCGet(tid))
+\* once some path has consumed the whole trace, the remaining search for this trace is cut off (depth-first queue)
+Prune == ~(TLCGet(tid) = Len(Tr) + 1 /\ l < Len(Tr) + 1)
 
 Accepted ==
   LET badT == {i \in 1..NT : TLCGet(i) # Len(Traces[i].evs) + 1}
